@@ -311,12 +311,23 @@ def r7_node_arithmetic(idx, r):
             raise AnalysisError(f"{fn}: loop not found")
         acc = next((s for s in loop.body if isinstance(s, ast.AugAssign) and isinstance(s.op, ast.Add)), None)
         test = next((s for s in loop.body if isinstance(s, ast.If)), None)
+        # the test and what is done when it holds - also when the loop is written with a guard: `if not T: continue` followed by the body
+        ttest, tbody = (test.test, test.body) if test is not None else (None, [])
+        if test is not None and not test.orelse and len(test.body) == 1 and isinstance(test.body[0], ast.Continue):
+            tbody = loop.body[loop.body.index(test) + 1:]
+            if isinstance(ttest, ast.UnaryOp) and isinstance(ttest.op, ast.Not):
+                ttest = ttest.operand
+            elif isinstance(ttest, ast.Compare) and len(ttest.ops) == 1 and type(ttest.ops[0]) in (ast.Gt, ast.GtE, ast.Lt, ast.LtE):
+                inv = {ast.Gt: ast.LtE, ast.GtE: ast.Lt, ast.Lt: ast.GtE, ast.LtE: ast.Gt}[type(ttest.ops[0])]
+                ttest = ast.Compare(left=ttest.left, ops=[inv()], comparators=ttest.comparators)
+        if isinstance(ttest, ast.Compare) and len(ttest.ops) == 1 and type(ttest.ops[0]) in (ast.Gt, ast.GtE):  # mirrored: acc > n  ==  n < acc
+            ttest = ast.Compare(left=ttest.comparators[0], ops=[{ast.Gt: ast.Lt, ast.GtE: ast.LtE}[type(ttest.ops[0])]()], comparators=[ttest.left])
         ok = acc is not None and test is not None and loop.body.index(acc) < loop.body.index(test) and norm(acc.value) == f"{arr}[i]" and norm(loop.iter) == f"range(len({arr}))"
         accn = norm(acc.target) if acc is not None else "?"
-        ok = ok and isinstance(test.test, ast.Compare) and isinstance(test.test.ops[0], cmp_op) and norm(test.test.left) == n and norm(test.test.comparators[0]) == accn
+        ok = ok and isinstance(ttest, ast.Compare) and isinstance(ttest.ops[0], cmp_op) and norm(ttest.left) == n and norm(ttest.comparators[0]) == accn and bool(tbody) and isinstance(tbody[-1], ast.Return)
         r.require(ok, f"{fn}:scan", f, node=test, msg=f"prefix-sum scan must add {arr}[i] then test `{n} {'<' if cmp_op is ast.Lt else '<='} {accn}`")
         if ok:
-            ret = test.body[-1]
+            ret = tbody[-1]
             tup = ret.value
             node_expr = E.ev(tup.elts[1])
             want = Poly.atom(n) - Poly.atom(accn) + Poly.atom(f"{arr}[i]") - shift
